@@ -1,14 +1,53 @@
 (* C23 — Field values reach the command intact. *)
-From Pydra Require Import Base.Prelude Base.Shlex Model.Shell Spec.Shell Proofs.ShellRefute.
+From Pydra Require Import Base.Prelude Base.Shlex Model.Shell Spec.Shell Proofs.ShellRefute Proofs.ShellContrib Proofs.ShellCorollaries.
+Local Open Scope list_scope.
 
+(* the property at full strength: whatever characters the value contains *)
 Definition C23_full_statement : Prop := C23_statement.
 
+(* "a b" becomes two arguments (finding F23) *)
 Theorem C23_refuted_space : ~ C23_full_statement.
 Proof. exact refuted_space. Qed.
 Print Assumptions C23_refuted_space.
 
+(* "it's" makes _command_args raise ValueError("No closing quotation") *)
 Theorem C23_refuted_quote :
   command_pos_args (to_field s_field) [sv "s" "it's"] = Bad ENoClosingQuote
   /\ spec_contrib s_field [sv "s" "it's"] = map la_of ["-s"; "it's"]%string.
 Proof. exact refuted_quote. Qed.
 Print Assumptions C23_refuted_quote.
+
+(* strongest positive statement: for every field and every value inside field_ok (benign characters: no
+   whitespace, quote, backslash, brace; non-empty; bracket clean-up patterns absent) what _command_pos_args returns
+   is the reference contribution: each element verbatim as its own argument or inside its template/separator *)
+Theorem C23_verbatim_benign : forall (f : sfield) (vals : vals_t) ws dots,
+  sf_argstr f = SA ws dots ->
+  field_ok f vals = true ->
+  lookup vals (sf_name f) <> VNone ->
+  command_pos_args (to_field f) vals = Good (Some (sf_pos f, spec_contrib f vals)).
+Proof. intros f vals ws dots Ha Hok Hn. now apply (contrib_ok f vals vals ws dots). Qed.
+Print Assumptions C23_verbatim_benign.
+
+(* the two readings spelled out for a string field, for ALL benign strings *)
+Theorem C23_own_argument : forall n flag v pos rest,
+  valid_ident n = true -> benign_text flag = true -> occurs ellipsis flag = false -> benign_text v = true ->
+  command_pos_args (to_field (mkS n TStr (SA [[Lit flag]] false) pos [" "%char])) ((n, VAtom (AStr v)) :: rest)
+  = Good (Some (pos, [flag; v])).
+Proof. exact own_argument. Qed.
+Print Assumptions C23_own_argument.
+
+Theorem C23_inside_template : forall n pre post v pos rest,
+  valid_ident n = true -> forallb benign_char pre = true -> forallb benign_char post = true ->
+  occurs ellipsis (pre ++ placeholder n ++ post) = false ->
+  benign_text v = true -> bracket_inert (pre ++ v ++ post) = true ->
+  command_pos_args (to_field (mkS n TStr (SA [[Lit pre; Self; Lit post]] false) pos [" "%char])) ((n, VAtom (AStr v)) :: rest)
+  = Good (Some (pos, [pre ++ v ++ post])).
+Proof. exact inside_template. Qed.
+Print Assumptions C23_inside_template.
+
+Example C23_benign_nontrivial :
+  benign_text (la_of "$HOME/*.nii;rm&|<>()#~") = true /\
+  command_pos_args (to_field (mkS (la_of "inp") TStr (SA [[Lit (la_of "--in")]] false) None [" "%char]))
+                   [(la_of "inp", VAtom (AStr (la_of "$HOME/*.nii;rm&|<>()#~")))]
+  = Good (Some (None, [la_of "--in"; la_of "$HOME/*.nii;rm&|<>()#~"])).
+Proof. split; [reflexivity|exact own_argument_example]. Qed.
